@@ -1,5 +1,156 @@
-import CffiVerif.Model.TypeParser
+import CffiVerif.Proofs.TypeParser
+
+/-!
+C07 — the Python and the C type-string parsers denote the same type (partial).
+
+The theorems are about the model of the C parser (`Model/TypeParser.lean`:
+`next_token`, `parse_complete`, `parse_sequel` of src/c/parse_c_type.c) and of the
+backend's name printer (`Model/CName.lean`).  The Python parser (pycparser +
+cparser.py) is not modelled; the two real parsers and the model are compared by the
+correspondence run (harness/corr_C07.py).
+
+* `parse_cname_partial`: the C parser reads the name the backend prints for a type back
+  as that type — for every type tree built from primitive, struct, union and enum leaves
+  with pointers and arrays, over every declaration context in which the leaves are
+  declared.
+  Full statement (function pointer types included), covered by the correspondence only:
+    `∀ ctx T, WF ctx T → parseType ctx (cname T).1 = .ok T`.
+* `qualifiers_ignored`: `const` / `volatile` in front of the specifiers, in front of a
+  declarator and after a `*` do not change what is parsed.
+* `decimal_octal_hex_length`: the decimal, octal and hex texts of a length are one number
+  token each and denote the same `Nat`.
+* `spec_order`: every order of a multiset of `short/long/signed/unsigned` gives the same
+  counters (or the same rejection).
+-/
 namespace CffiVerif.C07
 open CffiVerif.CName CffiVerif.TypeParser
-theorem placeholder : tokenize "int".toList = [Tok.kw .int_] := by decide
+
+/-- **The C parser inverts the C printer** on the fragment without function types:
+`F` ranges over all trees of primitive/struct/union/enum leaves, pointers and arrays
+(`FTy`), `ctx` over all contexts in which `F`'s leaf is declared (`WFLeaf`), array lengths
+over everything an array type can have (`≤ 2^63-1`). -/
+theorem parse_cname_partial (ctx : Ctx) (F : FTy) (hleaf : WFLeaf ctx F.leaf) (hlens : F.LensOK) :
+    parseType ctx (cname F.toTy).1 = .ok F.toTy :=
+  parse_cname_F ctx F hleaf hlens
+
+/-- … and `ffi.typeof` of a compiled FFI accepts it when the backend can build the type. -/
+theorem typeof_cname_partial (ctx : Ctx) (F : FTy) (hleaf : WFLeaf ctx F.leaf) (hlens : F.LensOK)
+    (hv : valid ctx F.toTy = true) : typeofC ctx (cname F.toTy).1 = .ok F.toTy := by
+  have hf : F.toTy.isFunc = false := by cases F <;> rfl
+  simp [typeofC, parse_cname_F ctx F hleaf hlens, hf, hv]
+
+/-- Printed name of a parse result, `none` for a rejection (an observation with decidable
+equality, used by the concrete examples below). -/
+def nameOf : Except Err Ty → Option Str
+  | .ok t => some (cname t).1
+  | .error _ => none
+
+-- non-vacuity: `unsigned long *(*)[5]` over a context with a typedef, and `struct s *[3]`
+def exCtx : Ctx :=
+  { typedefs := [("T0".toList, .prim "int".toList)], aggs := [("s".toList, .struct, true)],
+    enums := ["e".toList], consts := [] }
+def exF : FTy := .ptr (.arr (.ptr (.prim "unsigned long".toList)) (some 5))
+example : (cname exF.toTy).1 = "unsigned long *(*)[5]".toList := by decide
+example : WFLeaf exCtx exF.leaf := WFLeaf.kwPrim ["unsigned".toList, "long".toList] (by decide)
+example : parseType exCtx (cname exF.toTy).1 = .ok exF.toTy :=
+  parse_cname_partial exCtx exF (WFLeaf.kwPrim ["unsigned".toList, "long".toList] (by decide))
+    ⟨trivial, by intro n h; cases h; decide⟩
+example : WFLeaf exCtx (FTy.arr (.ptr (.agg .struct "s".toList)) (some 3)).leaf :=
+  WFLeaf.struct "s".toList true ⟨by decide, by decide, by decide, by decide⟩ (by decide)
+
+/-- **Qualifiers are ignored** wherever the C parser accepts them: before the specifiers
+(`parse_complete`'s `qualifiers:` loop), at the start of a declarator and after a star
+(`parse_sequel`'s `header:` loop). -/
+theorem qualifiers_ignored (ctx : Ctx) (q : Tok) (hq : q = .kw .const_ ∨ q = .kw .volatile_)
+    (ts : List Tok) (f : Nat) :
+    parseBase ctx (q :: ts) = parseBase ctx ts ∧
+    parseComplete ctx f (q :: ts) = parseComplete ctx f ts ∧
+    parseSequel ctx f (q :: ts) = parseSequel ctx f ts ∧
+    parseSequel ctx f (.sym '*' :: q :: ts) = parseSequel ctx f (.sym '*' :: ts) := by
+  have hb : parseBase ctx (q :: ts) = parseBase ctx ts := by
+    rcases hq with rfl | rfl <;> simp [parseBase, skipQuals]
+  have hh : ∀ n abi, header (q :: ts) n abi = header ts n abi := by
+    intro n abi; rcases hq with rfl | rfl <;> simp [header]
+  refine ⟨hb, ?_, ?_, ?_⟩
+  · cases f with
+    | zero => rfl
+    | succ f => simp only [parseComplete, hb]
+  · cases f with
+    | zero => rfl
+    | succ f => simp only [parseSequel, hh]
+  · cases f with
+    | zero => rfl
+    | succ f => simp only [parseSequel, header, hh]
+
+example : nameOf (parseType exCtx "const int * volatile const *".toList) = some "int * *".toList := by
+  decide +kernel
+
+/-- **Decimal, octal and hex lengths**: each spelling of `n` is a single number token inside
+brackets, and `strtoull(…, 0)` reads the same `n` from all of them. -/
+theorem decimal_octal_hex_length (n : Nat) (hn : n ≤ maxSsize) :
+    (numValue (dec n) = .ok n ∧ numValue ('0' :: digitsOf 8 n) = .ok n ∧
+      numValue ('0' :: 'x' :: digitsOf 16 n) = .ok n) ∧
+    (∀ s, run .idle ('[' :: (dec n ++ ']' :: s)) = .sym '[' :: .int (dec n) :: .sym ']' :: run .idle s) ∧
+    (∀ s, run .idle ('[' :: ('0' :: digitsOf 8 n ++ ']' :: s)) =
+      .sym '[' :: .int ('0' :: digitsOf 8 n) :: .sym ']' :: run .idle s) ∧
+    (∀ s, run .idle ('[' :: ('0' :: 'x' :: digitsOf 16 n ++ ']' :: s)) =
+      .sym '[' :: .int ('0' :: 'x' :: digitsOf 16 n) :: .sym ']' :: run .idle s) := by
+  have stop : ∀ s, NumStop (']' :: s) := fun s => ⟨by decide, by decide, by decide⟩
+  refine ⟨⟨numValue_dec n hn, numValue_oct n hn, numValue_hex n hn⟩, ?_, ?_, ?_⟩
+  · intro s
+    obtain ⟨c, ds, e, hc, hds⟩ := dec_shape n
+    rw [run_idle_lbracket, e]
+    have := run_number c ds (']' :: s) hc hds (stop s)
+    simp only [List.cons_append] at this ⊢
+    rw [this, run_idle_rbracket]
+  · intro s
+    rw [run_idle_lbracket]
+    have := run_number '0' (digitsOf 8 n) (']' :: s) (by decide)
+      (fun x hx => (digF_chars 8 (by omega) (by omega) _ _ x hx).1) (stop s)
+    simp only [List.cons_append] at this ⊢
+    rw [this, run_idle_rbracket]
+  · intro s
+    rw [run_idle_lbracket]
+    have := run_hex_number (digitsOf 16 n) (']' :: s)
+      (fun x hx => (digF_chars 16 (by omega) (by omega) _ _ x hx).1) (stop s)
+    simp only [List.cons_append] at this ⊢
+    rw [this, run_idle_rbracket]
+
+example : dec 26 = "26".toList ∧ digitsOf 8 26 = "32".toList ∧ digitsOf 16 26 = "1a".toList := by decide
+example : nameOf (parseType exCtx "int[032]".toList) = some "int[26]".toList ∧
+    nameOf (parseType exCtx "int[0x1a]".toList) = some "int[26]".toList := by decide +kernel
+
+/-- **Specifier order**: the `modifiers:` loop gives the same result for every order of the
+same `short/long/signed/unsigned` tokens (the same counters, or a rejection for all orders). -/
+theorem spec_order (ms ms' : List Tok) (hp : ms.Perm ms') (hm : ∀ t ∈ ms, isModifier t)
+    (rest : List Tok) : ∀ l s : Int, modifiers (ms ++ rest) l s = modifiers (ms' ++ rest) l s := by
+  induction hp with
+  | nil => intro l s; rfl
+  | cons a _ ih =>
+    intro l s
+    have ha := hm a (by simp)
+    have ih' := ih (fun t ht => hm t (by simp [ht]))
+    rcases ha with rfl | rfl | rfl | rfl <;> simp only [List.cons_append, modifiers] <;>
+      repeat' split
+    all_goals first | rfl | exact ih' _ _
+  | swap a b r =>
+    intro l s
+    exact modifiers_swap _ _ (hm b (by simp)) (hm a (by simp)) _ l s
+  | trans h1 _ ih1 ih2 =>
+    intro l s
+    rw [ih1 hm, ih2 (fun t ht => hm t (h1.mem_iff.mpr ht))]
+
+example : nameOf (parseType exCtx "long unsigned long int".toList) = some "unsigned long long".toList := by
+  decide +kernel
+
+/-- The divergences inside the property's grammar that the model reproduces (DESIGN §7 row 15):
+more than one level of grouping parentheses and a qualifier between two specifiers are
+rejected by the C parser. -/
+theorem known_divergences_c_side :
+    nameOf (parseType exCtx "long((*))".toList) = none ∧
+    nameOf (parseType exCtx "unsigned const short".toList) = none ∧
+    nameOf (parseType exCtx "long(*)".toList) = some "long *".toList ∧
+    nameOf (parseType exCtx "const unsigned short".toList) = some "unsigned short".toList := by
+  decide +kernel
+
 end CffiVerif.C07
